@@ -114,6 +114,41 @@ def long_spines(gen, rng, lengths):
     return out
 
 
+def long_arrays(rng, sizes):
+    """array literals of n elements - all constants (numbers, strings, booleans), one element that is no constant at any place, constants
+    nested in constants - standing alone, assigned, as an operand and inside code: the listing is the elements left to right, then
+    MAKEARRAY n, whatever n is and whatever the elements are (tenth seed round: literals of 16 and more constants were emitted as one push
+    of a prebuilt array)"""
+    out = []
+
+    def const(i):
+        k = i % 4
+        return ("num", str(i + 1)) if k < 2 else (("str", '"s%d"' % i) if k == 2 else (("true", "true") if i % 8 == 3 else ("false", "false")))
+
+    for n in sizes:
+        for style in ("const", "onevar", "nested", "numbers"):
+            els = [const(i) if style != "numbers" else ("num", str(i)) for i in range(n)]
+            if style == "onevar" and n:
+                els[rng.randrange(n)] = ("var", "v%d" % n)
+            if style == "nested" and n:
+                j = rng.randrange(n)
+                els[j] = ("arr", [const(i) for i in range(rng.choice([0, 1, 15, 16, 17]))])
+            arr = ("arr", els)
+            shape = rng.choice(["alone", "assign", "code", "twice", "inarray"])
+            if shape == "alone":
+                ss = [("expr", arr)]
+            elif shape == "assign":
+                ss = [("assign", "tbl", arr)]
+            elif shape == "inarray":
+                ss = [("expr", ("arr", [("num", "0"), arr, ("var", "w")]))]
+            elif shape == "code":
+                ss = [("assign", "f", ("code", [("expr", arr)]))]
+            else:
+                ss = [("assign", "a", arr), ("assign", "b", arr)]
+            out.append(("array:%s/%d/%s" % (style, n, shape), ss))
+    return out
+
+
 def garbage(rng, n):
     alpha = list(b"aftpruexl_AFTP019.+-*/%^!<>=&|#:$\"'()[]{};, \t\n\r?@\\~`") + [0x80, 0xff, 0x0b]
     words = [b"true", b"false", b"private", b"tru", b"fals", b"priv", b"TRUE", b"Private", b"0x", b"0x1f", b"$", b"$g", b"1e", b"1e+", b"1.",
@@ -208,6 +243,10 @@ def main(replay=None):
         sys.setrecursionlimit(20000)
         lens = [31, 32, 33, 63, 64, 65, 127, 128, 129, 255, 256, 257, 258, 300, 511, 512, 513, 700] if thorough else [64, 129, 255, 256, 257, 300, 513]
         for kind, ss in long_spines(gen, rng, lens + [rng.randint(20, 700) for _ in range(12 if thorough else 3)]):
+            add_tree(kind, ss, 0.0, 0.3)
+        # long array literals around the sizes where an implementation might switch strategy
+        asz = [0, 1, 2, 7, 8, 9, 15, 16, 17, 31, 32, 33, 63, 64, 65, 127, 128, 129, 255, 256, 257] + [rng.randint(10, 400) for _ in range(8 if thorough else 2)]
+        for kind, ss in long_arrays(rng, asz):
             add_tree(kind, ss, 0.0, 0.3)
         # the recorded defect: a unary+nular name used as an operand (real names first, then the harness's own)
         for nm in (P.real_UN + [n for n in P.UN if n not in P.real_UN]):
@@ -360,7 +399,7 @@ def main(replay=None):
     run.cov["evaluations"] = 2 * len(cases)
     run.cov["distinct_nontrivial"] = len(distinct)
     run.cov["rule"] = ("expression trees over literals, variables, arrays, code blocks, statements and every class of registered operator "
-                       "(all 400 parent/child level shapes, random trees of depth <= 6, boundary cases, a sweep over operator names, chains of one operator name repeated, left spines of up to 700 operators), printed with "
+                       "(all 400 parent/child level shapes, random trees of depth <= 6, boundary cases, a sweep over operator names, chains of one operator name repeated, left spines of up to 700 operators, array literals of 0-400 elements), printed with "
                        "minimal or redundant parentheses, random separators, whitespace and letter case; the family glue (c01_glue.py): every gap between two tokens closed "
                        "wherever theorems C01_lex_render / C01_lex_render_glued say the tokens stay the same (the extracted lexer re-checks every text) - L op R for every "
                        "symbol operator and a sample (thorough: all) of the word operators x the character class at the end of L x the character class at the start of R, "
